@@ -7,7 +7,7 @@ import torch
 from hypothesis import strategies as st
 
 from vlib import aggs, refs
-from vlib.matrices import FAMILIES, SEEDS, eps_of, matrices, smax
+from vlib.matrices import case_tensor, widened, FAMILIES, SEEDS, eps_of, matrices, smax
 from vlib.runner import RAISED, Outcome, Part
 
 ID = "C04"
@@ -64,6 +64,8 @@ def _case(draw):
                     spec["pref"][0] = 1.0
                 spec["pref_int"] = True
         spec["reg_eps"] = 10.0 ** draw(st.integers(-8, -1))
+        if draw(st.sampled_from([True] + [False] * 7)):
+            spec["reg_eps"] = draw(st.sampled_from([0.0, 1e-16, 1e-13, 1e-10]))  # below the documented domain: see run_case
     elif name == "MGDA":
         if draw(st.sampled_from([True, True, True, True, False])):
             spec["epsilon"] = 0.0
@@ -90,15 +92,57 @@ def _enum_cases(tier):
     return build
 
 
+@st.composite
+def _long_budget_case(draw, budgets=(30_000,)):
+    """MGDA with epsilon = 0 and budgets of 10^4 .. 10^5 iterations on Gaussian matrices whose min-norm point lies on a
+    face (Frank-Wolfe zig-zags there): the 8 s^2/(T+2) bound is then within a small factor of being tight."""
+    rng = np.random.default_rng(draw(SEEDS))
+    m = int(rng.integers(4, 9))
+    n = m + int(rng.integers(0, 4))
+    J = np.round(rng.standard_normal((m, n)), 2)
+    T = budgets[int(rng.integers(0, len(budgets)))]
+    # (float64 mostly: in float32 the rounding term of the comparison is larger than the bound at these budgets)
+    return {"J": J.tolist(), "dtype": ["float32", "float64", "float64", "float64"][int(rng.integers(0, 4))], "family": "gauss-long-budget",
+            "agg": {"name": "MGDA", "epsilon": 0.0, "max_iters": T}}
+
+
 def parts(tier):
     n = 12_000 if tier == "quick" else 400_000
     note = ("all matrices with entries in {-1,0,1} of shapes 1x1..3x3 x {UPGrad, DualProj, MGDA, CAGrad(1)}"
             if tier == "thorough" else
             "all {-1,0,1} matrices with <= 6 entries (shapes up to 2x3/3x2) and a seeded 10% of 3x3 x 4 aggregators")
     return [
-        Part("generated", "given", n=n, strategy=_case),
+        Part("generated", "given", n=n, strategy=lambda: widened(_case())),
+        Part("mgda_long_budgets", "given", n=16 if tier == "quick" else 1_600,
+             strategy=lambda: _long_budget_case(budgets=(30_000,) if tier == "quick" else (30_000, 100_000, 300_000))),
         Part("tiny_integer", "enum", cases=_enum_cases(tier), exhaustive_note=note),
     ]
+
+
+def _below_documented_domain(out, case, Jt, J, s):
+    """reg_eps + lambda_min(G/s^2) below the rounding noise of the Gramian: the quadratic programme is numerically
+    singular and the solver is ALLOWED to refuse it (the call raises; no vector, nothing to oppose). What the property
+    still demands is that a vector that IS returned does not oppose an objective. Calibration on the unchanged code
+    (2e4 such cases): the worst returned vector had min_i (J A(J))_i >= -2e-7 s^2 |w| (float32), -8e-9 s^2 |w|
+    (float64); the bound below leaves a factor 500."""
+    spec, name = case["agg"], case["agg"]["name"]
+    A = aggs.make(spec, case["dtype"])
+    try:
+        r = A(Jt)
+        w = A.weighting(Jt).double().numpy()
+    except Exception:  # noqa: BLE001 - refusing a numerically singular programme is within the contract
+        out.excluded = "reg_eps-below-gramian-noise(documented-domain):solver-refuses"
+        return out
+    out.cls(name, case["dtype"], "family:" + case["family"], "below-documented-reg_eps:returns-a-vector")
+    if not out.check(tuple(r.shape) == (J.shape[1],) and bool(torch.isfinite(r).all()), f"shape-finite:{name}", str(r)):
+        return out
+    prod = J @ r.double().numpy()
+    allow = spec.get("reg_eps", 1e-4) * s**2 * np.abs(w)
+    viol = float(np.max(-(prod + allow)))
+    out.within(max(viol, 0.0), 1e-4 * s**2 * (float(np.linalg.norm(w)) + 1.0), f"conflict-below-documented-reg_eps:{name}",
+               f"min_i (J A(J))_i = {prod.min():.3e} with s^2 = {s**2:.3e}, w = {w.tolist()}")
+    out.nontrivial = bool((J @ J.T < 0).any())
+    return out
 
 
 def run_case(case) -> Outcome:
@@ -106,7 +150,7 @@ def run_case(case) -> Outcome:
     dtype, spec = case["dtype"], case["agg"]
     name = spec["name"]
     eps = eps_of(dtype)
-    Jt = torch.tensor(case["J"], dtype=getattr(torch, dtype))
+    Jt = case_tensor(case, getattr(torch, dtype))
     J = Jt.double().numpy()
     m, n = J.shape
     s = smax(J)
@@ -114,11 +158,11 @@ def run_case(case) -> Outcome:
     if 0 < s < 2 * norm_eps:
         out.excluded = "s-below-2-norm_eps"
         return out
-    if name in ("UPGrad", "DualProj") and s > 0:
-        lam_min = max(0.0, float(np.linalg.eigvalsh(J @ J.T)[0]) / s**2)
+    lam_min = 0.0
+    if name in ("UPGrad", "DualProj"):
+        lam_min = max(0.0, float(np.linalg.eigvalsh(J @ J.T)[0]) / s**2) if s > 0 else 0.0
         if spec.get("reg_eps", 1e-4) + lam_min < 50 * m * eps:
-            out.excluded = "reg_eps-below-gramian-noise(documented-domain)"
-            return out
+            return _below_documented_domain(out, case, Jt, J, s)
     A = aggs.make(spec, dtype)
     out.cls(name, dtype, "family:" + case["family"])
     r = out.call(f"raises:{name}", A, Jt)
@@ -133,7 +177,9 @@ def run_case(case) -> Outcome:
         reg = spec.get("reg_eps", 1e-4)
         # quadprog leaves the dual feasibility H w >= 0 violated by rounding that grows with the conditioning of
         # H = G/s^2 + reg I (calibrated on 1e6 cases: ~3 m eps at reg 1e-4, ~300 m eps at reg 1e-8)
-        fp = 0.2 * K * m * eps * s**2 * float(np.linalg.norm(w)) * max(1.0, 1e-2 / np.sqrt(reg)) + 1e-300
+        # (below 1e-8 the conditioning is set by the smallest eigenvalue of G/s^2 instead, at least 50 m eps here)
+        reg_c = reg if reg >= 1e-8 else max(reg + lam_min, 50 * m * eps)
+        fp = 0.2 * K * m * eps * s**2 * float(np.linalg.norm(w)) * max(1.0, 1e-2 / np.sqrt(reg_c)) + 1e-300
         allow = reg * s**2 * np.abs(w)
         viol = float(np.max(-(prod + allow)))
         out.within(max(viol, 0.0), fp, f"conflict:{name}",
